@@ -642,6 +642,63 @@ fn lsp_ranges_layer(rep: &mut Report, tier: Tier) {
                         }
                     }
                 }
+                // the same after edits: every valid single edit (replacement <= 2 symbols) of the small
+                // documents over a reduced alphabet; ranges are resolved in the client's edited copy
+                let small = text.chars().count() <= 3 && text.chars().all(|c| matches!(c, 'a' | '\n' | 'é' | '😀' | '('));
+                if small {
+                    let reps = ["", "a", "é", "😀", "aa", "aé", "éa", "a😀", "aaaa", "("];
+                    let positions = doc.valid_positions();
+                    let mut version = 1;
+                    for (i, (ps, so)) in positions.iter().enumerate() {
+                        for (pe, eo) in positions.iter().skip(i) {
+                            for r in reps {
+                                if so == eo && r.is_empty() {
+                                    continue;
+                                }
+                                version += 1;
+                                p.send(&json!({"jsonrpc": "2.0", "method": "textDocument/didChange", "params": {"textDocument": {"uri": uri, "version": version}, "contentChanges": [{"text": text}]}}));
+                                if wait(&mut p, &|v| v["method"].as_str() == Some("textDocument/publishDiagnostics") && v["params"]["uri"].as_str() == Some(uri.as_str())).is_none() {
+                                    return (ranges, execs, viol, Some(format!("no diagnostics after resetting {text:?}")));
+                                }
+                                version += 1;
+                                p.send(&json!({"jsonrpc": "2.0", "method": "textDocument/didChange", "params": {"textDocument": {"uri": uri, "version": version}, "contentChanges": [{"range": {"start": {"line": ps.0, "character": ps.1}, "end": {"line": pe.0, "character": pe.1}}, "text": r}]}}));
+                                let Some(d) = wait(&mut p, &|v| v["method"].as_str() == Some("textDocument/publishDiagnostics") && v["params"]["uri"].as_str() == Some(uri.as_str())) else {
+                                    return (ranges, execs, viol, Some(format!("no diagnostics after an edit of {text:?}")));
+                                };
+                                let mut edited = doc.clone();
+                                edited.replace(*so, *eo, r);
+                                execs += 1;
+                                let mut bad2 = |what: &str, rg: &Value, why: String, viol: &mut Vec<Violation>| {
+                                    if viol.len() < 6 {
+                                        viol.push(Violation { class: "lsp-range-outside-document".into(), key: format!("lsp-after-edit|{what}|{}", if r.len() == eo - so && !r.is_empty() { "replacement of equal byte length" } else if r.is_empty() { "deletion" } else if so == eo { "insertion" } else { "replacement" }), witness: json!({"lsp_document": text, "edit": {"start": [ps.0, ps.1], "end": [pe.0, pe.1], "text": r}, "what": what}), detail: format!("document {text:?} after replacing {ps:?}..{pe:?} by {r:?} (client copy {:?}): {what} range {rg} - {why}", edited.text) });
+                                    }
+                                };
+                                for dg in d["params"]["diagnostics"].as_array().cloned().unwrap_or_default() {
+                                    ranges += 1;
+                                    if let Some(why) = lsp_range_problem(&edited, &dg["range"]) {
+                                        bad2("diagnostic", &dg["range"], why, &mut viol);
+                                    }
+                                }
+                                for ((l, c), _) in edited.valid_positions() {
+                                    next_id += 1;
+                                    let id = next_id;
+                                    p.send(&json!({"jsonrpc": "2.0", "id": id, "method": "textDocument/hover", "params": {"textDocument": {"uri": uri}, "position": {"line": l, "character": c}}}));
+                                    let Some(h) = wait(&mut p, &|v| v["id"].as_i64() == Some(id) && v.get("method").is_none()) else {
+                                        return (ranges, execs, viol, Some(format!("hover not answered after an edit of {text:?}")));
+                                    };
+                                    if let Some(rg) = h["result"].get("range") {
+                                        if !rg.is_null() {
+                                            ranges += 1;
+                                            if let Some(why) = lsp_range_problem(&edited, rg) {
+                                                bad2("hover", rg, why, &mut viol);
+                                            }
+                                        }
+                                    }
+                                }
+                            }
+                        }
+                    }
+                }
                 p.send(&json!({"jsonrpc": "2.0", "method": "textDocument/didClose", "params": {"textDocument": {"uri": uri}}}));
             }
             p.send(&json!({"jsonrpc": "2.0", "id": 2, "method": "shutdown", "params": null}));
@@ -667,7 +724,7 @@ fn lsp_ranges_layer(rep: &mut Report, tier: Tier) {
         }
     }
     rep.guard(l.transitions > 100, "more than 100 ranges seen on the wire");
-    l.bound = format!("all documents <= {n} symbols over {{a, space, LF, 2-byte and 4-byte characters (lexer errors), an unterminated string quote, `(`, a digit}} opened on the real binary: every range of the published diagnostics and of the hover answer at every position, resolved in the client's copy of the document (line exists, column within the line's UTF-16 length, not inside a character, start <= end)");
+    l.bound = format!("all documents <= {n} symbols over {{a, space, LF, 2-byte and 4-byte characters (lexer errors), an unterminated string quote, `(`, a digit}} opened on the real binary: every range of the published diagnostics and of the hover answer at every position, resolved in the client's copy of the document (line exists, column within the line's UTF-16 length, not inside a character, start <= end); for the documents <= 3 symbols over {{a, LF, 2-byte, 4-byte, `(`}} the same after every valid single edit with a replacement from 10 strings (<= 2 symbols, incl. replacements of equal byte length and other UTF-16 length)");
     rep.layer(l);
 }
 
